@@ -43,7 +43,7 @@ VARIABLE o   \* the observable state: one record with the fields
 Kinds == {"prepare", "connect", "disconnect", "request", "close1", "close2", "close3"}
 CloseKinds == {"close1", "close2", "close3"}
 CloseIdx(k) == CASE k = "close1" -> 1 [] k = "close2" -> 2 [] k = "close3" -> 3 [] OTHER -> 0
-NoCall == [api |-> "", n |-> 0, m |-> 0, rt |-> 0, wt |-> 0]
+NoCall == [api |-> "", n |-> 0, m |-> 0, rt |-> 0, wt |-> 0, pd |-> FALSE]
 Actors == {"acceptor", "task1", "task2", "task3", "task4", "task5", "task6", "closer1", "closer2", "closer3",
            "reader", "flusher", "flusher2", "hup1", "hup2", "poller", "env", "user1", "user2"}
 
@@ -104,12 +104,15 @@ ReadRetViol(a, err, ok, lenAfter) ==
     \* end-of-stream is reported only once everything the peer sent has been delivered
     \cup (IF err = "eof" /\ o.consumed + lenAfter < o.sent THEN {"C04.end_of_stream_before_all_data"} ELSE {})
     \cup (IF err = "eof" /\ ~o.peerClosed THEN {"C07.eof_without_peer_close"} ELSE {})
+    \* "returns successfully once n bytes are buffered": end-of-stream with the n bytes sitting in the buffer is not an answer
+    \cup (IF err = "eof" /\ lenAfter >= c.n THEN {"C07.eof_although_bytes_were_buffered"} ELSE {})
     \cup (IF err = "closed" /\ ~o.localClose THEN {"C07.connclosed_without_local_close"} ELSE {})
     \cup (IF err = "rtimeout" /\ o.rtFired = c.rt THEN {"C07.timeout_without_expiry"} ELSE {})
     \cup (IF err = "rtimeout" /\ c.m >= c.n THEN {"C07.timeout_although_bytes_were_buffered"} ELSE {})
     \cup (IF err = "rtimeout" /\ lenAfter < c.m THEN {"C07.timeout_consumed_data"} ELSE {})
-    \* (the recorded executions have no schedule point between the expiry check and the return)
-    \cup (IF err = "rtimeout" /\ lenAfter >= c.n THEN {"C07.timeout_although_bytes_were_buffered"} ELSE {})
+    \* (a timer tick is followed by a second look at the buffer, and the recorded executions have no schedule point between that look
+    \* and the return; a deadline that has passed before the call is only compared with what was buffered at the call)
+    \cup (IF err = "rtimeout" /\ lenAfter >= c.n /\ ~c.pd THEN {"C07.timeout_although_bytes_were_buffered"} ELSE {})
     \cup (IF err \notin {"nil", "eof", "closed", "rtimeout"} THEN {"C07.unexpected_read_error"} ELSE {})
 
 \* return of Write: nil only when the kernel has taken every o.submitted byte
@@ -148,7 +151,9 @@ QuiescentViol(inlen, blocked) ==
                 \cup (IF b.k = "spin" THEN {"C05.goroutine_spinning_for_ever"} ELSE {})
                 \* Close never blocks, whatever the other goroutines are doing
                 \cup (IF b.g \in {"closer1", "closer2", "closer3"} /\ b.k # "harness" THEN {"C12.close_call_never_returned"} ELSE {})
-                \cup (IF b.k = "timerdrain" THEN {"C07.reader_stuck_draining_timer"} ELSE {}) : b \in blocked}
+                \cup (IF b.k = "timerdrain" THEN {"C07.reader_stuck_draining_timer"} ELSE {})
+                \* C12: after a close no Reader / Writer call stays blocked
+                \cup (IF b.k \in {"timerdrain", "read", "write"} /\ (o.localClose \/ o.peerClosed) /\ ~b.cb THEN {"C12.call_blocked_after_close"} ELSE {}) : b \in blocked}
 
 -----------------------------------------------------------------------------
 (* Effects: the new observable state after an event *)
@@ -158,8 +163,9 @@ CbStartEff(k) == [o EXCEPT !.started[k] = @ + 1,
 CbEndEff(k, pan) == [o EXCEPT !.ended[k] = @ + 1,
                               !.panicked = (@ \/ pan = 1),
                               !.localClose = (@ \/ pan = 1)]
-CallEff(a, api, n, m) ==
-    [o EXCEPT !.pend[a] = [api |-> api, n |-> n, m |-> m, rt |-> o.rtFired, wt |-> o.wtFired],
+\* (pd: the read was called with a deadline that had already passed)
+CallEff(a, api, n, m, pd) ==
+    [o EXCEPT !.pend[a] = [api |-> api, n |-> n, m |-> m, rt |-> o.rtFired, wt |-> o.wtFired, pd |-> pd],
               !.localClose = (@ \/ api \in {"Close", "Detach"}),
               !.detached = (@ \/ api = "Detach")]
 RetEff(a, api, n, ok, err) ==
